@@ -32,7 +32,7 @@ fn meta() -> Meta {
     Meta {
         id: "C06",
         level: "model_checking",
-        rule: "every sequence of runs up to the depth bound, each run = (append on/off) x (clock +0 s | +1 s before the start) x shape in {no write, W, WWW (criterion rotates once), W R W}, for every configuration (naming x cleanup incl. compression, two file-name shapes, non-rotating file); states = distinct canonical directories (names with instants relative to the clock, sizes) reached, transitions = runs executed; non-trivial = sequence with >= 2 runs that wrote records; plus configurations starting from a directory that already holds app_r99998.log (numbering passes five digits); plus configurations starting from app_r00001.log, app_r00002.log.gz, app_r00003.log.gz (a plain file older than compressed ones); with append the first record of a run follows the previous run's last record in the same file unless that file was over the size limit; configurations with suffix err.log, with a basename containing a dot and no suffix, and with a limit of one file for the direct timestamp namings",
+        rule: "every sequence of runs up to the depth bound, each run = (append on/off) x (clock +0 s | +1 s before the start) x shape in {no write, W, WWW (criterion rotates once), W R W}, for every configuration (naming x cleanup incl. compression, two file-name shapes, non-rotating file); states = distinct canonical directories (names with instants relative to the clock, sizes) reached, transitions = runs executed; non-trivial = sequence with >= 2 runs that wrote records; plus configurations starting from a directory that already holds app_r99998.log (numbering passes five digits); plus configurations starting from app_r00001.log, app_r00002.log.gz, app_r00003.log.gz (a plain file older than compressed ones); plus configurations starting from app_r00001.log.gz, app_r00002.log.gz (only compressed files); with append the first record of a run follows the previous run's last record in the same file unless that file was over the size limit; configurations with suffix err.log, with a basename containing a dot and no suffix, and with a limit of one file for the direct timestamp namings",
         assumptions: vec![
             "size limit 15 with 10-byte lines; cleanup runs synchronously; direct write mode".into(),
             "names that were removed by the cleanup limit may be used again (the property speaks of names that exist)".into(),
@@ -53,6 +53,10 @@ struct Case {
     /// (an operator has unpacked an old file, or an earlier cleanup was interrupted):
     /// app_r00001.log, app_r00002.log.gz, app_r00003.log.gz
     seed_mixed: bool,
+    /// the history starts in a directory that holds only compressed files (the quantifier names
+    /// this state; an operator has packed everything while the program was stopped):
+    /// app_r00001.log.gz, app_r00002.log.gz
+    seed_only_gz: bool,
 }
 
 fn grid() -> Vec<Case> {
@@ -63,6 +67,7 @@ fn grid() -> Vec<Case> {
                 cfg: Cfg::rot(CritK::Size(LIMIT), naming, clean),
                 seed_index: None,
                 seed_mixed: false,
+                seed_only_gz: false,
             });
         }
     }
@@ -76,7 +81,7 @@ fn grid() -> Vec<Case> {
                 suffix: Some("log".into()),
                 use_timestamp: false,
             };
-            g.push(Case { cfg, seed_index: None, seed_mixed: false });
+            g.push(Case { cfg, seed_index: None, seed_mixed: false, seed_only_gz: false });
         }
     }
     // discriminant only, no suffix
@@ -88,7 +93,7 @@ fn grid() -> Vec<Case> {
             suffix: None,
             use_timestamp: false,
         };
-        g.push(Case { cfg, seed_index: None, seed_mixed: false });
+        g.push(Case { cfg, seed_index: None, seed_mixed: false, seed_only_gz: false });
     }
     // a suffix that sorts behind "restart" (whole file names are then ordered differently from
     // their infixes)
@@ -96,7 +101,7 @@ fn grid() -> Vec<Case> {
         for clean in [CleanK::Never, CleanK::Log(2)] {
             let mut cfg = Cfg::rot(CritK::Size(LIMIT), naming, clean);
             cfg.parts.suffix = Some("txt".into());
-            g.push(Case { cfg, seed_index: None, seed_mixed: false });
+            g.push(Case { cfg, seed_index: None, seed_mixed: false, seed_only_gz: false });
         }
     }
     // a limit of one file with direct timestamp naming (a restart sibling can be the only file)
@@ -105,13 +110,14 @@ fn grid() -> Vec<Case> {
             cfg: Cfg::rot(CritK::Size(LIMIT), naming, CleanK::Log(1)),
             seed_index: None,
             seed_mixed: false,
+                seed_only_gz: false,
         });
     }
     // a suffix of two parts whose first part contains the letter r
     for naming in [NamingK::Numbers, NamingK::NumbersDirect] {
         let mut cfg = Cfg::rot(CritK::Size(LIMIT), naming, CleanK::Never);
         cfg.parts.suffix = Some("err.log".into());
-        g.push(Case { cfg, seed_index: None, seed_mixed: false });
+        g.push(Case { cfg, seed_index: None, seed_mixed: false, seed_only_gz: false });
     }
     // a basename with a dot and no suffix: the infix is not the end of the "stem"
     for naming in [NamingK::Numbers, NamingK::NumbersDirect, NamingK::Timestamps] {
@@ -122,12 +128,13 @@ fn grid() -> Vec<Case> {
             suffix: None,
             use_timestamp: false,
         };
-        g.push(Case { cfg, seed_index: None, seed_mixed: false });
+        g.push(Case { cfg, seed_index: None, seed_mixed: false, seed_only_gz: false });
     }
     g.push(Case {
         cfg: Cfg::norot(),
         seed_index: None,
         seed_mixed: false,
+                seed_only_gz: false,
     });
     // non-initial state: the numbering is about to grow beyond five digits
     for naming in [NamingK::Numbers, NamingK::NumbersDirect] {
@@ -136,6 +143,7 @@ fn grid() -> Vec<Case> {
                 cfg: Cfg::rot(CritK::Size(LIMIT), naming, clean),
                 seed_index: Some(99_998),
                 seed_mixed: false,
+                seed_only_gz: false,
             });
         }
     }
@@ -145,6 +153,17 @@ fn grid() -> Vec<Case> {
                 cfg: Cfg::rot(CritK::Size(LIMIT), naming, clean),
                 seed_index: None,
                 seed_mixed: true,
+                seed_only_gz: false,
+            });
+        }
+    }
+    for naming in [NamingK::Numbers, NamingK::NumbersDirect] {
+        for clean in [CleanK::Never, CleanK::Gz(6), CleanK::LogGz(1, 4)] {
+            g.push(Case {
+                cfg: Cfg::rot(CritK::Size(LIMIT), naming, clean),
+                seed_index: None,
+                seed_mixed: false,
+                seed_only_gz: true,
             });
         }
     }
@@ -251,12 +270,15 @@ fn run_history(c: &Case, word: &[(bool, i64, usize)]) -> Result<Vec<Vec<(String,
     let mut h = Hist::new(&env, c.cfg.clone());
     let mut prev: Snap = Snap::new();
     let mut prev_names: Vec<String> = Vec::new();
-    if c.seed_mixed {
+    if c.seed_mixed || c.seed_only_gz {
         use std::io::Write;
         // (with direct numbering the newest file is the current one, which is never compressed)
         let mut seed = vec![(1u32, false), (2, true), (3, true)];
         if c.cfg.naming() == Some(NamingK::NumbersDirect) {
             seed.push((4, false));
+        }
+        if c.seed_only_gz {
+            seed = vec![(1u32, true), (2, true)];
         }
         for (i, gz) in seed {
             let line = format!("seed-{i}\n").into_bytes();
@@ -427,7 +449,9 @@ fn cause(c: &Case, word: &[(bool, i64, usize)], run: usize) -> String {
         Some((_, _, CleanK::Gz(_))) => "gz",
         Some((_, _, CleanK::LogGz(..))) => "log+gz",
     };
-    let shape = if c.seed_mixed {
+    let shape = if c.seed_only_gz {
+        "/only-compressed-files"
+    } else if c.seed_mixed {
         "/plain-older-than-compressed"
     } else if c.seed_index.is_some() {
         "/numbers-beyond-five-digits"
